@@ -58,8 +58,9 @@ def sentinel(c, name, rng):
     raise KeyError((name, kind))
 
 
-def response_for(c, a, rng):
-    """bytes a device would return for this request (reference-encoded where a format exists)"""
+def response_for(c, a, rng, big=False):
+    """bytes a device would return for this request (reference-encoded where a format exists); big: the device has more
+    descriptors than fit the allocation length (it reports the full length and transfers what fits)"""
     from vmon.spec import datain as D
 
     name = c.name
@@ -85,12 +86,10 @@ def response_for(c, a, rng):
     if name == "ReadCd":
         n = a.get("tl", 0) * 3072
         return bytes(rng.getrandbits(8) for _ in range(min(n, 4096))) + bytes(max(0, n - 4096))
-    if name == "ReportPriority":
-        fm = D.FORMATS["reportpriority"]
-        return fm.encode(fm.gen(rng, ("count", 0)))
     if name in FMT_BY_CMD:
         fm = D.FORMATS[FMT_BY_CMD[name]]
-        return fm.encode(fm.gen(rng, ("count", rng.choice([0, 1, 2]), 0) if name == "ReportTargetPortGroups" else ("count", rng.choice([0, 1, 2]))))
+        n = rng.choice([12, 40, 300]) if big else rng.choice([0, 1, 2])
+        return fm.encode(fm.gen(rng, ("count", n, 0) if name == "ReportTargetPortGroups" else ("count", n)))
     return b""
 
 
@@ -274,7 +273,7 @@ def run(shard, ctx):
                     for k, v in list(full.items()):
                         if v is None and c.args.get(k, (None,))[0] == "atadata":
                             full[k] = None
-                    resp = response_for(c, full, rng)
+                    resp = response_for(c, full, rng, big=rng.random() < 0.25)
                     if c.facade_unmarshall and rng.random() < 0.25:
                         # arbitrary device-provided contents: whatever they are, one command is sent and the result (or the
                         # error) is that of decoding exactly these bytes
